@@ -44,6 +44,7 @@ FIXES = [
  ('C12',"'hidden' attribute is included when a style is printed","style.rs: --show-config omitted the `hidden` attribute, so the reported style did not reproduce the rendering"),
  ('C01',"is not a file header when diff -u output starts with","delta.rs: in plain diff output that starts with a `diff -u a b` / `Only in` line, a removed line `--- x` followed by `+++ y` inside a hunk was rendered as a new file header and the rest of the hunk was lost (also C14)"),
  ('C04','an over-long line with invalid UTF-8 is truncated like any other line','delta.rs: a line with invalid UTF-8 longer than max-line-length was cut without the truncation symbol (and without the exemptions for hunk headers / rg --json records)'),
+ ('C08','a long hunk header colored by git is exempt','delta.rs: a hunk header longer than max-line-length was truncated when git had coloured it (`ESC[36m@@ ...`) but not when uncoloured: the exemption tested the raw line for a leading `@@`'),
 ]
 out = []
 for prop, pat, what in FIXES:
